@@ -3,6 +3,7 @@ from __future__ import annotations
 
 import itertools
 
+from . import common
 from .common import Check, cmat, fmt_ints, fmt_matrix, kv
 
 THEOREMS = [
@@ -191,5 +192,17 @@ def check(ck: Check) -> None:
     ck.assumptions += ["numba compiles tour_length as written (int64 accumulator, negative index wrap for x[-1])",
                        "moptipy int_range_to_dtype behaves as modelled by Base.dtypeFor (checked at thresholds by this stream)",
                        "names/sanitize_name and np.ndarray subclassing are outside the model"]
-    ck.lean(["Props.C05"], THEOREMS)
+    modules, theorems = ["Props.C05"], list(THEOREMS)
+    # tie between source and model: lean/Gen/TourLength.lean is regenerated from the CURRENT source of tour_length and
+    # Props/C05Gen.lean proves it equal to the hand-written model `Tsp.tourLen?` for all inputs
+    try:
+        from .translate import loop2lean
+        ck.gen_begin()   # released at the end of ck.lean
+        loop2lean.emit_tour_length(common.REPO, common.LEAN)
+        modules.append("Props.C05Gen")
+        theorems.append("C05Gen.tour_length_eq_model")
+    except Exception as e:  # noqa: BLE001 - source outside the translatable subset: the obligation cannot be regenerated
+        ck.proof_failures.append(f"translator loop2lean: tour_length is not translatable, the theorem "
+                                 f"C05Gen.tour_length_eq_model could not be re-checked against the source: {e!r}")
+    ck.lean(modules, theorems)
     streams(ck)
